@@ -494,7 +494,7 @@ func (m *Machine) checkRound() {
 					"inputs":    depNames(allowed[:]),
 					"deps_seen": depNames(w.Deps[:w.NDeps]), "lanewise": true,
 					"pattern_aL_aH_bL_bH": []string{hex(m.patternOf(pa, 0)), hex(m.patternOf(pa, 1)), hex(m.patternOf(pb, 0)), hex(m.patternOf(pb, 1))},
-					"word_written":        hex(w.V), "truth_table_rows_0_to_15": fmt.Sprintf("%016b", sig),
+					"word_written":        hex(w.V), "truth_table_rows_15_down_to_0": fmt.Sprintf("%016b", sig),
 				})
 			}
 		}
